@@ -860,6 +860,29 @@ def world_value(kind):
     return f
 
 
+def m_fsencode(ctx, interp, args, kwargs):
+    """os.fsencode(str): bytes in the PROCESS's filesystem encoding (locale / UTF-8 mode at start-up).  Modelled as an
+    uninterpreted function of a world-indexed configuration value and the string, equal to the UTF-8 encoding on ASCII
+    text (every filesystem encoding CPython supports is ASCII-compatible); a str subject raising for unencodable text is
+    outside the model."""
+    v = args[0]
+    if isinstance(v, (bytes, SBytes, SBytesBV)):
+        return v
+    if not isinstance(v, (str, SStr)):
+        raise SymRaise(TypeError("expected str, bytes or os.PathLike object, not %s" % pytype_of(v).__name__))
+    ctx.note("world: os.fsencode depends on the process's filesystem encoding")
+    memo = ctx.__dict__.setdefault("_fsenc_world", None)
+    if memo is None:
+        memo = z3.Int(ctx.fresh_name("world:fsencoding"))
+        ctx.__dict__["_fsenc_world"] = memo
+    f = z3.Function("py_fsencode", z3.IntSort(), z3.StringSort(), z3.StringSort())
+    st = ops.str_term(v)
+    out = f(memo, st)
+    ascii_ = z3.InRe(st, z3.Star(z3.Range(chr(0), chr(127))))
+    ctx.assume(z3.Implies(ascii_, out == st))
+    return SBytes(out, "utf-8")
+
+
 def m_format_str(ctx, interp, args, kwargs):
     """black.format_str: formatting preserves the AST of its input (black's own safety
     contract); modelled as the identity on the concrete text it is given."""
@@ -919,6 +942,28 @@ def _native_table():
     }
     import unicodedata
     t[unicodedata.normalize] = m_unicode_normalize
+    import struct as _struct
+    import operator as _operator
+    import sys as _sys
+    t[_struct.Struct] = m_struct_ctor
+    t[_struct.unpack] = lambda c, i, a, k: struct_unpack(c, a[0], a[1], 0, exact=True)
+    t[_struct.unpack_from] = lambda c, i, a, k: struct_unpack(c, a[0], a[1], a[2] if len(a) > 2 else k.get("offset", 0))
+    t[math.ldexp] = m_ldexp
+    t[math.pow] = lambda c, i, a, k: _sym_or_native(c, math.pow, a, lambda: ops.binop(c, _ast.Pow(), _as_float(c, a[0]), _as_float(c, a[1])))
+    t[pow] = lambda c, i, a, k: _sym_or_native(c, pow, a, lambda: ops.binop(c, _ast.Pow(), a[0], a[1])) if len(a) == 2 else _unsup("three-argument pow")
+    t[math.fabs] = lambda c, i, a, k: _sym_or_native(c, math.fabs, a, lambda: m_abs(c, i, [_as_float(c, a[0])], {}))
+    t[math.isnan] = lambda c, i, a, k: _sym_or_native(c, math.isnan, a, lambda: (ops.wrap_bool(z3.fpIsNaN(a[0].term)) if isinstance(a[0], SFP) else False))
+    t[math.isinf] = lambda c, i, a, k: _sym_or_native(c, math.isinf, a, lambda: (ops.wrap_bool(z3.fpIsInf(a[0].term)) if isinstance(a[0], SFP) else False))
+    for _n, _op in (("add", _ast.Add), ("sub", _ast.Sub), ("mul", _ast.Mult), ("truediv", _ast.Div), ("floordiv", _ast.FloorDiv),
+                    ("mod", _ast.Mod)):
+        t[getattr(_operator, _n)] = (lambda op_: lambda c, i, a, k: ops.binop(c, op_(), a[0], a[1]))(_op)
+    for _n, _op in (("lt", _ast.Lt), ("le", _ast.LtE), ("gt", _ast.Gt), ("ge", _ast.GtE), ("eq", _ast.Eq), ("ne", _ast.NotEq)):
+        t[getattr(_operator, _n)] = (lambda op_: lambda c, i, a, k: ops.compare(c, op_(), a[0], a[1]))(_op)
+    # text <-> bytes conversions that depend on the process (locale / filesystem encoding): world-indexed values
+    t[os.fsencode] = m_fsencode
+    t[os.fsdecode] = world_value("locale")
+    t[_sys.getfilesystemencoding] = world_value("locale")
+    t[_sys.getdefaultencoding] = lambda c, i, a, k: "utf-8"
     import re as _re
     t[_re.sub] = m_re_sub
     t[_re.split] = m_re_split
@@ -964,6 +1009,111 @@ def m_isclose(ctx, interp, args, kwargs):
     return ops.wrap_bool(d <= tol)
 
 
+import ast as _ast
+
+
+def _unsup(msg):
+    raise Unsupported(msg)
+
+
+def _sym_or_native(ctx, fn, args, symbolic):
+    if not contains_sym(args):
+        try:
+            return fn(*args)
+        except Exception as e:
+            raise SymRaise(e)
+    return symbolic()
+
+
+def _as_float(ctx, v):
+    if isinstance(v, (SInt, SBool)) or (isinstance(v, int) and not isinstance(v, float)):
+        return m_float(ctx, None, [v], {})
+    return v
+
+
+class StructObj:
+    """struct.Struct(fmt) for the single-integer formats digests are read with"""
+
+    def __init__(self, fmt):
+        self.fmt = fmt
+
+    def pysym_getattr(self, ctx, interp, name):
+        if name in ("unpack", "unpack_from"):
+            return _StructMeth(self, name)
+        if name == "size":
+            import struct as _s
+            return _s.calcsize(self.fmt)
+        if name == "format":
+            return self.fmt
+        raise SymRaise(AttributeError(name))
+
+
+class _StructMeth:
+    def __init__(self, st, name):
+        self.st, self.name = st, name
+
+    def pysym_call(self, ctx, interp, args, kwargs):
+        off = 0
+        if self.name == "unpack_from":
+            off = args[1] if len(args) > 1 else kwargs.get("offset", 0)
+        return struct_unpack(ctx, self.st.fmt, args[0], off, exact=(self.name == "unpack"))
+
+
+def m_struct_ctor(ctx, interp, args, kwargs):
+    if contains_sym(args) or not isinstance(args[0], (str, bytes)):
+        raise Unsupported("struct.Struct with a symbolic format")
+    return StructObj(args[0] if isinstance(args[0], str) else args[0].decode())
+
+
+def struct_unpack(ctx, fmt, data, offset=0, exact=False):
+    """struct.unpack / unpack_from for single unsigned-integer formats on digest bytes"""
+    import struct as _s
+    if isinstance(fmt, bytes):
+        fmt = fmt.decode()
+    if not contains_sym(data) and not contains_sym(offset):
+        try:
+            return _s.unpack_from(fmt, data, offset) if not exact else _s.unpack(fmt, data)
+        except Exception as e:
+            raise SymRaise(e)
+    if not isinstance(data, SBytesBV) or contains_sym(offset) or not isinstance(fmt, str):
+        raise Unsupported("struct.unpack of %s" % type(data).__name__)
+    order, body = (fmt[0], fmt[1:]) if fmt[:1] in "<>!=@" else ("@", fmt)
+    sizes = {"B": 1, "H": 2, "I": 4, "L": 4 if order in "<>!=" else _s.calcsize("L"), "Q": 8}
+    if len(body) != 1 or body not in sizes:
+        raise Unsupported("struct format %r" % fmt)
+    n = sizes[body]
+    total = data.nbytes
+    if offset < 0 or offset + n > total or (exact and total != n):
+        raise SymRaise(_s.error("unpack requires a buffer of %d bytes" % n))
+    if order in "=@":
+        import sys as _sys
+        ctx.note("world: struct native byte order (%s-endian on this host)" % _sys.byteorder)
+        little = _sys.byteorder == "little"
+    else:
+        little = order == "<"
+    t = z3.Extract(8 * (total - offset) - 1, 8 * (total - offset - n), data.term)
+    if little:
+        parts = [z3.Extract(8 * i + 7, 8 * i, t) for i in range(n)]
+        t = z3.Concat(*parts) if n > 1 else parts[0]
+    return (SInt(z3.BV2Int(t, False), bv=t),)
+
+
+def m_ldexp(ctx, interp, args, kwargs):
+    x, e = args[0], args[1]
+    if not contains_sym(args):
+        try:
+            return math.ldexp(x, e)
+        except Exception as ex:
+            raise SymRaise(ex)
+    if contains_sym(e) or isinstance(e, bool) or not isinstance(e, int) or abs(e) > 1000:
+        raise Unsupported("ldexp with a symbolic or huge exponent")
+    if ctx.float_mode == "fp":
+        xt = ops.fp_term(x)
+        return SFP(z3.fpMul(RNE, xt, fp_const(math.ldexp(1.0, e))))      # exact unless the result over/underflows
+    xr = ops.real_term(x)
+    return SReal(xr * (z3.RealVal(2) ** e if e >= 0 else 1 / z3.RealVal(2 ** (-e))))
+
+
 def _pure_natives():
     """pure functions of the standard library that may be called natively on CONCRETE arguments"""
     import operator
@@ -1006,6 +1156,11 @@ def call_native(ctx, interp, fn, args, kwargs):
         try:
             return fn(*args, **kwargs)
         except Exception as e:
+            raise SymRaise(e)
+    if isinstance(fn, type) and issubclass(fn, tuple) and hasattr(fn, "_fields") and fn in interp.native_ok:
+        try:
+            return fn(*args, **kwargs)       # a record: a container, its members may be symbolic
+        except TypeError as e:
             raise SymRaise(e)
     if isinstance(fn, type) and _is_repo_data_class(fn):
         if contains_sym(args) or contains_sym(kwargs):
